@@ -24,4 +24,10 @@ PROPS = {
             "items of length 0 are the format's terminator and keys of 65536+ bytes exceed KVToBytes' uint16 length field: both are hypotheses of the theorems (refuted variants proved)",
         ],
     },
+    "C20": {
+        "runs": [run("c20", 1500, 30000)],
+        "level_text": "Theorem nt_refines_map: for every hash function and every Update/Get/Remove sequence the fast+overflow table's outputs and ItemsCount equal those of an association map (induction over ops with a per-bucket invariant). Node list: chain invariant preserved by Add (fresh node) / Remove, Keys = keys in list order. The model is tied to nodetable/table.go and nodelist.go by per-op output comparison plus the internal counters (FastHTCount/SlowHTCount/Conflicts/MemoryInUse).",
+        "level_note": "Full. Bit-63 pointer tagging is modelled by contract (value = pointer + flag), so pointers with bit 63 set are outside the model; Go maps are modelled as total functions; adding a node twice (cycle) is excluded by the freshness hypothesis (refuted variant proved).",
+        "assumptions": ["pointers fit in 63 bits", "EqualKeyFn compares the key stored behind the pointer with the lookup key", "nodes added to a NodeList are not already in it"],
+    },
 }
